@@ -254,6 +254,25 @@ NMNEOBS = {
                                             ["high_nmne_threshold", "med_nmne_threshold", "low_nmne_threshold"])}},
  ]}
 
+# ---- whole-node scan ----
+BASE = "src/primaite/simulator/network/hardware/base.py"
+NOS = "src/primaite/simulator/network/hardware/node_operating_state.py"
+def _l(coll, body):
+    return "for:self.%s:self.%s[%s].%s" % (coll, coll, {"processes": "process_id", "services": "service_id", "applications": "application_id"}[coll], body)
+NODESCAN = {
+ "enum_files": [NOS],
+ "methods": [
+  {"path": BASE, "cls": "Node", "fn": "scan", "ret": "bool"},
+  {"path": BASE, "cls": "Node", "fn": "apply_timestep", "name": "Node_apply_timestep_while_on", "ret": "unit", "drop_params": ["timestep"],
+   "only_if": "self.operating_state == NodeOperatingState.ON",
+   "calls": {_l("processes", "scan()"): ("emit", 1, []), _l("services", "scan()"): ("emit", 2, []), _l("applications", "scan()"): ("emit", 3, []),
+             "self.file_system.scan": ("emit", 4, []),
+             _l("processes", "reveal_to_red()"): ("emit", 5, []), _l("services", "reveal_to_red()"): ("emit", 6, []),
+             _l("applications", "reveal_to_red()"): ("emit", 7, []), "self.file_system.reveal_to_red": ("emit", 8, []),
+             _l("processes", "apply_timestep(timestep=timestep)"): ("emit", 9, []), _l("services", "apply_timestep(timestep=timestep)"): ("emit", 10, []),
+             _l("applications", "apply_timestep(timestep=timestep)"): ("emit", 11, []), "self.file_system.apply_timestep": ("emit", 12, [])}},
+ ]}
+
 GROUPS = {
  "software": dict(SOFTWARE, gen="Gen/GenSoftware.v", eq="Proofs/GenEqSoftware.vo"),
  "killchain": dict(KILLCHAIN, gen="Gen/GenKillChain.v", eq="Proofs/GenEqKillChain.vo"),
@@ -269,6 +288,7 @@ GROUPS = {
  "periodic": dict(PERIODIC, gen="Gen/GenPeriodic.v", eq="Proofs/GenEqPeriodic.vo"),
  "pretick": dict(PRETICK, gen="Gen/GenPreTick.v", eq="Proofs/GenEqPreTick.vo"),
  "nmneobs": dict(NMNEOBS, gen="Gen/GenNmneObs.v", eq="Proofs/GenEqNmneObs.vo"),
+ "nodescan": dict(NODESCAN, gen="Gen/GenNodeScan.v", eq="Proofs/GenEqNodeScan.vo"),
 }
 for _g in GROUPS.values():
     _g["functions"] = ["%s.%s" % (m["cls"], m["fn"]) for m in _g["methods"]]
